@@ -2,8 +2,499 @@
 
 package main
 
-type c10ComposeScn struct{}
+// C10 "compose" scenarios: the real PTComposer.Compose over simstore with
+// templates some of which fail to render (a failing from-XR patch, a missing
+// name-prefix label, a failing name generator); a recording client in front of
+// the store logs every write attempt and injects Invalid / other errors for
+// chosen resources. The monitor evaluates "an unrendered resource is neither
+// created nor updated while the others are, and its reference is kept"
+// directly on the write log.
 
-func c10GenComposeScn(r *Rng) *c10Scn { return c10GenResolveScn(r) }
+import (
+	"context"
+	"errors"
+	"fmt"
+	"reflect"
+	"sort"
+	"strings"
 
-func c10RunCompose(s *c10Scn) (any, []Mon, string) { return map[string]any{}, nil, "trivial/compose-stub" }
+	corev1 "k8s.io/api/core/v1"
+	kerrors "k8s.io/apimachinery/pkg/api/errors"
+	"k8s.io/apimachinery/pkg/apis/meta/v1/unstructured"
+	"k8s.io/apimachinery/pkg/runtime"
+	"k8s.io/apimachinery/pkg/runtime/schema"
+	"k8s.io/apimachinery/pkg/types"
+	"sigs.k8s.io/controller-runtime/pkg/client"
+
+	"github.com/crossplane/crossplane-runtime/pkg/resource"
+	ucomposed "github.com/crossplane/crossplane-runtime/pkg/resource/unstructured/composed"
+	ucomposite "github.com/crossplane/crossplane-runtime/pkg/resource/unstructured/composite"
+
+	v1 "github.com/crossplane/crossplane/apis/apiextensions/v1"
+	"github.com/crossplane/crossplane/internal/controller/apiextensions/composite"
+	"github.com/crossplane/crossplane/internal/names"
+)
+
+type c10Tpl struct {
+	Name          *string    `json:"name"`
+	BaseSrc       string     `json:"baseSrc"`
+	Base          any        `json:"base"`
+	Patches       []c10Patch `json:"patches"`
+	RefKind       string     `json:"refKind"`
+	RefAPIVersion string     `json:"refApiVersion"`
+	RefName       string     `json:"refName"`
+	NameGen       string     `json:"nameGen"` // "fail", or the name the generator hands out
+	Apply         string     `json:"apply"`   // ok | invalid | error
+	Status        any        `json:"status"`  // status of the stored resource (existing ones only)
+}
+
+type c10ComposeScn struct {
+	XR          any      `json:"xr"`
+	Tpls        []c10Tpl `json:"tpls"`
+	UpdateFails bool     `json:"updateFails"`
+}
+
+type c10Write struct {
+	Verb   string `json:"verb"`
+	Target string `json:"target"`
+}
+
+// c10RecClient records write attempts and injects faults per target resource.
+type c10RecClient struct {
+	*Store
+	target func(kind, name string) string
+	fault  map[string]string // target -> "invalid" | "error"
+	writes []c10Write
+	bodies []any
+}
+
+func (c *c10RecClient) note(verb string, obj client.Object) (string, error) {
+	kind := obj.GetObjectKind().GroupVersionKind().Kind
+	t := c.target(kind, obj.GetName())
+	c.writes = append(c.writes, c10Write{Verb: verb, Target: t})
+	if verb == "create" {
+		if u, ok := obj.(runtime.Unstructured); ok {
+			c.bodies = append(c.bodies, c10Enc(c10CopyMap(u.UnstructuredContent())))
+		}
+	}
+	switch c.fault[t] {
+	case "invalid":
+		return t, kerrors.NewInvalid(schema.GroupKind{Group: "example.org", Kind: kind}, obj.GetName(), nil)
+	case "error":
+		return t, errors.New("injected failure")
+	}
+	return t, nil
+}
+
+func (c *c10RecClient) Create(ctx context.Context, obj client.Object, opts ...client.CreateOption) error {
+	if _, err := c.note("create", obj); err != nil {
+		return err
+	}
+	return c.Store.Create(ctx, obj, opts...)
+}
+
+func (c *c10RecClient) Update(ctx context.Context, obj client.Object, opts ...client.UpdateOption) error {
+	if _, err := c.note("update", obj); err != nil {
+		return err
+	}
+	return c.Store.Update(ctx, obj, opts...)
+}
+
+func (c *c10RecClient) Patch(ctx context.Context, obj client.Object, p client.Patch, opts ...client.PatchOption) error {
+	if _, err := c.note("patch", obj); err != nil {
+		return err
+	}
+	return c.Store.Patch(ctx, obj, p, opts...)
+}
+
+func (c *c10RecClient) Delete(ctx context.Context, obj client.Object, opts ...client.DeleteOption) error {
+	if _, err := c.note("delete", obj); err != nil {
+		return err
+	}
+	return c.Store.Delete(ctx, obj, opts...)
+}
+
+func c10ComposeErrClass(err error) string {
+	if err == nil {
+		return ""
+	}
+	msg := err.Error()
+	switch {
+	case strings.Contains(msg, "cannot parse base template"):
+		return "parseBase"
+	case strings.Contains(msg, "cannot apply composed resource"):
+		return "apply"
+	case strings.Contains(msg, "cannot render ToComposite patches"):
+		return "toXR"
+	case strings.Contains(msg, "cannot update composite resource"):
+		return "update"
+	}
+	return "other:" + msg
+}
+
+const c10XRUID = "uid-xr"
+
+func c10RunCompose(s *c10Scn) (any, []Mon, string) {
+	cs := s.Compose
+	xrC, _ := c10Dec(cs.XR).(map[string]any)
+	if xrC == nil {
+		xrC = map[string]any{}
+	}
+	// the harness owns identity and references of the XR
+	xrC["apiVersion"], xrC["kind"] = "example.org/v1", "XThing"
+	md, _ := xrC["metadata"].(map[string]any)
+	if md == nil {
+		md = map[string]any{}
+	}
+	md["name"] = "my-xr"
+	md["uid"] = c10XRUID
+	xrC["metadata"] = md
+	spec, _ := xrC["spec"].(map[string]any)
+	if spec == nil {
+		spec = map[string]any{}
+	}
+	refs := []any{}
+	for _, t := range cs.Tpls {
+		ref := map[string]any{"apiVersion": "example.org/v1", "kind": "Thing"}
+		if t.RefName != "" {
+			ref["name"] = t.RefName
+		}
+		refs = append(refs, ref)
+	}
+	spec["resourceRefs"] = refs
+	xrC["spec"] = spec
+
+	allNamed := true
+	for _, t := range cs.Tpls {
+		allNamed = allNamed && t.Name != nil
+	}
+	// read the XR back from the store: this is the object Compose is handed (server-set metadata included)
+	st := NewStore(runtime.NewScheme())
+	st.Seed(&unstructured.Unstructured{Object: c10CopyMap(xrC)})
+	xr := ucomposite.New()
+	if err := st.Get(context.Background(), types.NamespacedName{Name: "my-xr"}, xrGet(xr)); err != nil {
+		return map[string]any{}, []Mon{{Sig: "C10:harness", Why: "cannot read the seeded XR: " + err.Error()}}, "trivial/harness-error"
+	}
+	xrC = c10CopyMap(xr.Object)
+	cs.XR = c10Enc(xrC)
+
+	// prepare templates: decoded bases, parsed paths, oracle tables
+	nameIdx := map[string]int{}
+	for i := range cs.Tpls {
+		t := &cs.Tpls[i]
+		if allNamed && t.RefName == "" {
+			// the by-name associator leaves the reference of a template without a resource empty
+			t.RefKind, t.RefAPIVersion = "", ""
+		} else if t.RefKind == "" {
+			t.RefKind, t.RefAPIVersion = "Thing", "example.org/v1"
+		}
+		t.Base = c10DecodeBase(t.BaseSrc)
+		if t.RefName != "" {
+			nameIdx[t.RefName] = i
+		} else if t.NameGen != "" && t.NameGen != "fail" {
+			nameIdx[t.NameGen] = i
+		}
+		shadowCD := map[string]any{"metadata": map[string]any{"name": c10Or(t.RefName, t.NameGen)}}
+		if st := c10Dec(t.Status); st != nil && t.RefName != "" {
+			shadowCD["status"] = st
+			t.Status = c10Enc(st)
+		} else {
+			t.Status = nil
+		}
+		for j := range t.Patches {
+			p := &t.Patches[j]
+			c10PrepPatch(p)
+			c10FillPatchOracles(p, xrC, shadowCD)
+		}
+	}
+
+	for _, t := range cs.Tpls {
+		if t.RefName == "" {
+			continue
+		}
+		anno := map[string]any{}
+		if t.Name != nil {
+			anno["crossplane.io/composition-resource-name"] = *t.Name
+		}
+		o := map[string]any{
+			"apiVersion": "example.org/v1", "kind": "Thing",
+			"metadata": map[string]any{
+				"name": t.RefName, "annotations": anno,
+				"labels": map[string]any{"crossplane.io/composite": "my-xr"},
+				"ownerReferences": []any{map[string]any{"apiVersion": "example.org/v1", "kind": "XThing", "name": "my-xr", "uid": c10XRUID, "controller": true, "blockOwnerDeletion": true}},
+			},
+			"spec": map[string]any{"stored": "x"},
+		}
+		if stt := c10Dec(t.Status); stt != nil {
+			o["status"] = stt
+		}
+		st.Seed(&unstructured.Unstructured{Object: o})
+	}
+	cl := &c10RecClient{Store: st, fault: map[string]string{}}
+	cl.target = func(kind, name string) string {
+		if kind == "XThing" {
+			return "xr"
+		}
+		if i, ok := nameIdx[name]; ok {
+			return fmt.Sprint(i)
+		}
+		return "?" + name
+	}
+	if cs.UpdateFails {
+		cl.fault["xr"] = "error"
+	}
+	for i, t := range cs.Tpls {
+		if t.Apply == "invalid" || t.Apply == "error" {
+			cl.fault[fmt.Sprint(i)] = t.Apply
+		}
+	}
+	// the name oracle: template i's resource gets the scenario's name or a failure
+	call := 0
+	namer := names.NameGeneratorFn(func(_ context.Context, cd resource.Object) error {
+		i := call
+		call++
+		if cd.GetName() != "" || cd.GetGenerateName() == "" {
+			return nil
+		}
+		if i >= len(cs.Tpls) || cs.Tpls[i].NameGen == "fail" || cs.Tpls[i].NameGen == "" {
+			return errors.New("cannot generate a name")
+		}
+		cd.SetName(cs.Tpls[i].NameGen)
+		return nil
+	})
+	rev := &v1.CompositionRevision{}
+	for _, t := range cs.Tpls {
+		ct := v1.ComposedTemplate{Name: t.Name, Base: runtime.RawExtension{Raw: []byte(t.BaseSrc)}}
+		for _, p := range t.Patches {
+			ct.Patches = append(ct.Patches, c10RealPatch(p))
+		}
+		rev.Spec.Resources = append(rev.Spec.Resources, ct)
+	}
+	comp := composite.NewPTComposer(cl, cl, composite.WithComposedNameGenerator(namer))
+	var mons []Mon
+	cl.writes, cl.bodies = nil, nil
+	var res composite.CompositionResult
+	var cerr error
+	pn := Guard(func() { res, cerr = comp.Compose(context.Background(), xr, composite.CompositionRequest{Revision: rev}) })
+	ec := c10ComposeErrClass(cerr)
+	if pn != "" {
+		mons = append(mons, Mon{Sig: "C10:panic", Why: "Compose panicked: " + c10Short(pn)})
+		ec = "panic"
+	}
+	if strings.HasPrefix(ec, "other:") {
+		mons = append(mons, Mon{Sig: "C10:unclassified-error", Why: ec})
+	}
+	obs := map[string]any{"err": ec}
+	writes := []any{}
+	for _, w := range cl.writes {
+		writes = append(writes, map[string]any{"verb": w.Verb, "target": w.Target})
+	}
+	obs["writes"] = writes
+	if cl.bodies == nil {
+		cl.bodies = []any{}
+	}
+	obs["bodies"] = cl.bodies
+	orefs := []any{}
+	if ec != "parseBase" {
+		for _, r := range xr.GetResourceReferences() {
+			orefs = append(orefs, map[string]any{"kind": r.Kind, "name": r.Name})
+		}
+	}
+	obs["refs"] = orefs
+	synced := []any{}
+	if ec == "" {
+		for _, c := range res.Composed {
+			synced = append(synced, c.Synced)
+		}
+	}
+	obs["synced"] = synced
+
+	// ---- direct monitor: which templates do not render, established by rendering each one
+	// separately with the real functions
+	unrendered := make([]bool, len(cs.Tpls))
+	parseOK := true
+	for i, t := range cs.Tpls {
+		r := ucomposed.New(ucomposed.FromReference(corev1.ObjectReference{APIVersion: t.RefAPIVersion, Kind: t.RefKind, Name: t.RefName}))
+		xrc := &ucomposite.Unstructured{Unstructured: unstructured.Unstructured{Object: c10CopyMap(xrC)}}
+		var e1, e2, e3 error
+		Guard(func() {
+			e1 = composite.RenderFromJSON(r, []byte(t.BaseSrc))
+			if e1 != nil {
+				return
+			}
+			var ps []v1.Patch
+			for _, p := range t.Patches {
+				ps = append(ps, c10RealPatch(p))
+			}
+			e2 = composite.RenderFromCompositePatches(r, xrc, ps)
+			e3 = composite.RenderComposedResourceMetadata(r, xrc, composite.ResourceName(c10Deref(t.Name)))
+		})
+		if e1 != nil {
+			parseOK = false
+		}
+		nameFails := r.GetName() == "" && r.GetGenerateName() != "" && (t.NameGen == "fail" || t.NameGen == "")
+		unrendered[i] = e2 != nil || e3 != nil || nameFails
+	}
+	if parseOK && pn == "" {
+		wrote := map[string]bool{}
+		for _, w := range cl.writes {
+			wrote[w.Target] = true
+			if strings.HasPrefix(w.Target, "?") {
+				mons = append(mons, Mon{Sig: "C10:write-to-unknown-resource", Why: "a write was addressed to " + w.Target})
+			}
+		}
+		for i, t := range cs.Tpls {
+			ti := fmt.Sprint(i)
+			if unrendered[i] && wrote[ti] {
+				mons = append(mons, Mon{Sig: "C10:unrendered-applied", Why: "template " + ti + " failed to render but a write was addressed to its resource"})
+			}
+			if !unrendered[i] && ec == "" && !wrote[ti] {
+				mons = append(mons, Mon{Sig: "C10:rendered-not-applied", Why: "template " + ti + " rendered and the reconcile succeeded but its resource was not written"})
+			}
+			if t.RefName != "" && ec != "parseBase" {
+				got := xr.GetResourceReferences()
+				if i >= len(got) || got[i].Name != t.RefName {
+					mons = append(mons, Mon{Sig: "C10:reference-dropped", Why: "the reference to the existing resource of template " + ti + " was not kept"})
+				}
+			}
+		}
+	}
+	nun := 0
+	for _, u := range unrendered {
+		if u {
+			nun++
+		}
+	}
+	return obs, mons, fmt.Sprintf("compose/n=%d/unrendered=%d/%s", len(cs.Tpls), nun, c10Or(ec, "ok"))
+}
+
+func xrGet(xr *ucomposite.Unstructured) client.Object {
+	xr.SetGroupVersionKind(schema.GroupVersionKind{Group: "example.org", Version: "v1", Kind: "XThing"})
+	return xr
+}
+
+func c10Deref(s *string) string {
+	if s == nil {
+		return ""
+	}
+	return *s
+}
+
+// ---------------------------------------------------------------- generator
+
+func c10GenComposeScn(r *Rng) *c10Scn {
+	xr := map[string]any{"spec": c10GenObj(r, 2)}
+	// make some well-known fields present most of the time so that patches succeed often
+	sp := xr["spec"].(map[string]any)
+	if r.Chance(3, 4) {
+		sp["region"] = Pick(r, []string{"eu-west-1", "us-east-1a", "abc"})
+	}
+	if r.Chance(3, 4) {
+		sp["size"] = Pick(r, c10Ints)
+	}
+	if r.Chance(1, 2) {
+		sp["enabled"] = r.Bool()
+	}
+	md := map[string]any{}
+	if !r.Chance(1, 12) {
+		l := map[string]any{"crossplane.io/composite": "my-xr"}
+		if r.Bool() {
+			l["crossplane.io/claim-name"] = "claim"
+			l["crossplane.io/claim-namespace"] = "team-a"
+		}
+		md["labels"] = l
+	}
+	xr["metadata"] = md
+	cs := &c10ComposeScn{XR: c10Enc(xr), UpdateFails: r.Chance(1, 15)}
+	n := r.Range(1, 4)
+	named := r.Chance(2, 3)
+	for i := 0; i < n; i++ {
+		t := c10Tpl{RefAPIVersion: "example.org/v1", RefKind: "Thing", Apply: "ok"}
+		if named {
+			t.Name = c10P(fmt.Sprintf("res-%d", i))
+		}
+		existing := r.Chance(1, 2)
+		if existing {
+			t.RefName = fmt.Sprintf("cd-%d", i)
+			if r.Chance(2, 3) {
+				t.Status = c10Enc(map[string]any{"id": Pick(r, []any{"abc-123", int64(7), true}), "atProvider": c10GenObj(r, 1)})
+			}
+		}
+		t.NameGen = fmt.Sprintf("gen-%d", i)
+		if r.Chance(1, 6) {
+			t.NameGen = "fail"
+		}
+		switch r.Intn(10) {
+		case 0:
+			t.Apply = "invalid"
+		case 1:
+			t.Apply = "error"
+		}
+		base := map[string]any{"apiVersion": "example.org/v1", "kind": "Thing", "spec": c10GenObj(r, 2)}
+		if r.Chance(1, 3) {
+			base["metadata"] = map[string]any{"labels": map[string]any{"app": "x"}, "name": "ignored"}
+		}
+		if r.Chance(1, 30) {
+			base["kind"] = "Other"
+		}
+		t.BaseSrc = mustJSON(base)
+		if r.Chance(1, 40) {
+			t.BaseSrc = "{bad"
+		}
+		cdShadow := map[string]any{"apiVersion": "example.org/v1", "kind": "Thing", "spec": base["spec"], "status": c10Dec(t.Status), "metadata": map[string]any{"name": "x"}}
+		for j, m := 0, r.Intn(4); j < m; j++ {
+			p := &c10Patch{}
+			switch r.Intn(8) {
+			case 0, 1, 2, 3:
+				p.Type = Pick(r, []string{"FromCompositeFieldPath", "FromCompositeFieldPath", ""})
+				p.From = &c10Path{Raw: c10GenComposeFrom(r, xr)}
+				if r.Chance(2, 3) || !strings.HasPrefix(p.From.Raw, "spec") {
+					p.To = &c10Path{Raw: "spec." + Pick(r, []string{"forProvider.region", "size", "a", "list[1]", "m.k", "tags[0].v"})}
+				}
+				if v, ok := c10ValueAt(xr, p.From.Raw); ok {
+					p.Xfs = c10GenChain(r, v, 2)
+				}
+			case 4:
+				p.Type = "CombineFromComposite"
+				p.Combine = &c10Combine{Strategy: "string", Fmt: c10P(Pick(r, []string{"%s-%s", "%v/%v", "%s-%d"})), Vars: []c10Path{{Raw: c10GenComposeFrom(r, xr)}, {Raw: c10GenComposeFrom(r, xr)}}}
+				p.To = &c10Path{Raw: "spec.combined"}
+			default:
+				p.Type = "ToCompositeFieldPath"
+				p.From = &c10Path{Raw: Pick(r, []string{"status.id", "status.atProvider.a", "status.missing", "metadata.name", "status.atProvider"})}
+				p.To = &c10Path{Raw: "status." + Pick(r, []string{"id", "observed.x", "list[0]"})}
+				if v, ok := c10ValueAt(cdShadow, p.From.Raw); ok && r.Chance(1, 3) {
+					p.Xfs = c10GenChain(r, v, 1)
+				}
+			}
+			switch r.Intn(5) {
+			case 0:
+				p.Policy = &c10Policy{From: c10P("Required")}
+			case 1:
+				p.Policy = &c10Policy{From: c10P("Optional")}
+			}
+			t.Patches = append(t.Patches, *p)
+		}
+		cs.Tpls = append(cs.Tpls, t)
+	}
+	return &c10Scn{Kind: "compose", Compose: cs}
+}
+
+// c10GenComposeFrom picks a source path under spec (patches that overwrite the composed
+// resource's metadata – and with it its identity – are outside the compose model).
+func c10GenComposeFrom(r *Rng, xr map[string]any) string {
+	if r.Chance(1, 2) {
+		return "spec." + Pick(r, []string{"region", "size", "enabled", "missing"})
+	}
+	sp, _ := xr["spec"].(map[string]any)
+	if r.Chance(1, 8) {
+		return Pick(r, []string{"metadata.name", "metadata.labels[crossplane.io/composite]", "metadata.missing"})
+	}
+	p := c10GenPath(r, map[string]any{"spec": sp}, false)
+	if !strings.HasPrefix(p, "spec") {
+		return "spec.region"
+	}
+	return p
+}
+
+var _ = sort.Strings
+var _ = reflect.DeepEqual
